@@ -1,7 +1,7 @@
 -------------------------- MODULE Trace_StreamOps --------------------------
 (* impl -> spec: every record is one public call observed on a small lopdf document            *)
 (*   [run, op, sid (1-based stream, 0 = whole document), arg, res, post |-> pi(every stream)]    *)
-(* dk = kind of the disturbance decoded on the same thread right before the call ("none"),          *)
+(* dk / dnow = kind of the thread's most recent disturbance / whether it came right before the call, *)
 (* op = "reset" starts a new document (post = the streams as built).  The spec carries the       *)
 (* stream states, judges each call with the declarative layer of StreamOps (LengthOK,            *)
 (* SetContentOK, SetPlainOK, CompressOK, DecompressOK, DecodeAgrees for the logged results of     *)
@@ -63,7 +63,7 @@ StreamIssues(pre, rec, i) ==
     LET post == StateOf(rec.post[i])
         touched == rec.sid = 0 \/ rec.sid = i
     IN IF ~touched THEN {IF post = pre[i] THEN "" ELSE "untouched-stream-changed"}
-                        \cup (IF rec.dk # "none" THEN QueryIssues(post, rec.post[i]) ELSE {})     \* queried after a disturbance
+                        \cup (IF rec.dnow THEN QueryIssues(post, rec.post[i]) ELSE {})     \* queried after a disturbance
        ELSE QueryIssues(post, rec.post[i]) \cup
             CASE rec.op = "set_content"       -> {IF SetContentOK(pre[i], rec.arg, post) THEN "" ELSE "set_content"}
               [] rec.op = "set_plain_content" -> {IF SetPlainOK(pre[i], rec.arg, post) THEN "" ELSE "set_plain_content"}
@@ -84,17 +84,18 @@ Drift(pre, rec, i) ==
     LET post == StateOf(rec.post[i]) ip == ImplPost(pre, rec, i)
     IN [post EXCEPT !.orc = NoOracle] # [ip EXCEPT !.orc = NoOracle]
 
-\* Disturb: rec.dk # "none" says that, on the same thread, some other stream (kind rec.dk; most of them fail
-\* part-way) was decoded immediately before the call and before each decode query of the projection.  A
-\* disturbance changes no state of the specification - decoding is a function of (content, dictionary) - so the
-\* record is judged exactly like an undisturbed one.  Only the *name* of a broken decode clause depends on it:
-\* when a thread that never decoded anything gives another answer for the same call (rec.fresh_same, post[i].hs;
-\* logged by the harness for naming, never for judging) the verdict is history.<kind of the disturbance>.
+\* Disturb: rec.dnow says that, on the same thread, some other stream (kind rec.dk; most of them fail part-way)
+\* was decoded immediately before the call and before each decode query of the projection; otherwise rec.dk is
+\* the kind of the most recent disturbance of the thread ("none": never disturbed).  A disturbance changes no
+\* state of the specification - decoding is a function of (content, dictionary) - so every record is judged
+\* exactly like an undisturbed one.  Only the *name* of a broken decode clause depends on it: when a thread that
+\* never decoded anything gives another answer for the same call (rec.fresh_same, post[i].hs; logged by the
+\* harness for naming, never for judging) the verdict is history.<kind of the most recent disturbance>.
 HistClauses == {"decompressed_content", "get_plain_content", "decompress.content", "decompress.failed", "compress.lossy",
                 "untouched-stream-changed"}
 Named(v, rec) ==
-    IF v \in HistClauses /\ rec.dk # "none" /\ (~rec.fresh_same \/ \E i \in 1..Len(rec.post) : rec.post[i].hs)
-    THEN "history." \o rec.dk ELSE v
+    IF v \in HistClauses /\ (~rec.fresh_same \/ \E i \in 1..Len(rec.post) : rec.post[i].hs)
+    THEN "history." \o (IF rec.dk = "none" THEN "earlier-call" ELSE rec.dk) ELSE v
 
 Judge(pre, rec) ==
     LET n == Len(rec.post)
